@@ -653,6 +653,7 @@ def main():
     ap.add_argument("--replay")
     a = ap.parse_args()
     seed = int(os.environ.get("VERIF_SEED", "1"))
+    os.environ["WV_TIER"] = a.tier
     if a.replay:
         return replay(a.pid, a.replay)
     if a.pid not in CHECKS:
